@@ -314,6 +314,8 @@ def gen_op(rng):
         (1, lambda: "chown %s %d %d" % (any_path(rng), rng.choice([0, 1]), rng.choice([0, 2]))),
         (1, lambda: "fchown %s 3 4" % s),
         (1, lambda: "lchown %s 5 6" % any_path(rng)),
+        (1, lambda: "burst %s %d %d" % (rng.choice(["mkdir", "stat", "open", "mixed"]),
+                                        rng.choice([63, 64, 65, 66, 128, 256]), rng.choice([1, 2]))),
         (1, lambda: "cancel %s" % rng.choice(["stat", "read", "write", "rename", "scandir", "mkdtemp", "readlink"])),
     ]
     tot = sum(w for w, _ in kinds)
@@ -419,6 +421,8 @@ def routes_model_input(case, p, kv, ring):
 
 def routes_monitor_parsed(case, p):
     if isinstance(p, str):
+        if p.startswith("crash 3"):
+            return "asynchronous requests never completed: uv_run did not return within 20 s (%s)" % p[:100]
         return "the library crashed or hung on this sequence (%s)" % p[:80]
     if p is None:
         return "unparsable harness line"
@@ -459,6 +463,9 @@ def routes_monitor_parsed(case, p):
         for rt in routes:
             got = (cell_res(o[rt]), cell_out(o[rt]))
             if got != ref:
+                if (rt == "R" and name == "read" and got[0] == "0" and ref[0] == "-21" and o["R"][0].get("via") == "r"
+                        and sum(parse_lens(txt.split()[3])) == 0 and got[1] == ref[1]):
+                    continue    # kernel: IORING_OP_READV of zero bytes on a directory is 0, read(2) is EISDIR (notes, obs. 6)
                 return "op %d (%s): route %s gives %s %s, POSIX gives %s %s" % (
                     o["i"], txt, {"S": "sync", "P": "pool", "R": "ring"}.get(rt, rt), got[0], got[1], ref[0], ref[1])
         if cell_res(o["X"]) == "alias":
@@ -548,6 +555,42 @@ def pool_projection(line):
 
 
 # ----------------------------------------------------------------------------
+# (v) room in the submission ring: uv__iou_get_sqe on a fake 64-entry ring
+# ----------------------------------------------------------------------------
+def sqring_cases(rng, n):
+    out = []
+    for _ in range(n):
+        head = rng.choice([0, 0, 1, 63, 64, 1000, 2**31, 2**32 - 70, 2**32 - 64, 2**32 - 5, 2**32 - 1, rng.randrange(2**32)])
+        o0 = rng.choice([0, 0, 1, 30, 61, 62, 63, rng.randint(0, 63)])
+        ops = []
+        for _ in range(rng.randint(5, 200)):
+            r = rng.random()
+            if r < 0.7:
+                ops += ["s"] * rng.choice([1, 1, 2, 5, 64, 70])
+            else:
+                ops.append("k%d" % rng.choice([1, 1, 2, 10, 62, 63, 64, 100]))
+        out.append("%d %d ; %s" % (head, (head + o0) % 2**32, " ".join(ops[:3000])))
+    return out
+
+
+def sqring_monitor(case, line):
+    """never more than 64 entries outstanding, never a slot granted whose entry the
+    kernel has not consumed (the harness marks that with '!')"""
+    if line.startswith("crash"):
+        return "uv__iou_get_sqe crashed (%s)" % line[:60]
+    if "!" in line:
+        k = line.split().index(next(t for t in line.split() if t.endswith("!")))
+        return "submission %d was given a slot whose previous entry the kernel had not consumed yet (%s)" % (
+            k + 1, line.split()[k])
+    m = re.search(r"h=(\d+) t=(\d+)$", line.strip())
+    if not m:
+        return "unparsable harness line"
+    if (int(m.group(2)) - int(m.group(1))) % 2**32 > 64:
+        return "more entries outstanding than the ring has slots"
+    return None
+
+
+# ----------------------------------------------------------------------------
 def run_robust(cmd, cases, shards=8, env=None, keep=lambda l: True):
     """run_lines; when a process died (fewer lines than cases) every case is run in a
     process of its own so that the crashing inputs are known: their line is 'crash <rc>'."""
@@ -592,6 +635,7 @@ def main():
                               extra=["-rdynamic"])
         hroutes = vf.cc_harness(chk.scratch, "c11_routes", ["c11_routes.c"], lib=lib, wraps=["syscall"])
         hpool = vf.cc_harness(chk.scratch, "c11_pool", ["c11_pool.c"], lib=lib)
+        hsq = vf.cc_harness(chk.scratch, "c11_sqring", ["c11_sqring.c"], lib=lib)
         liba = vf.build_libuv(chk.scratch, "asan")
         hroutes_a = vf.cc_harness(chk.scratch, "c11_routes_asan", ["c11_routes.c"], lib=liba,
                                   flavour="asan", wraps=["syscall"])
@@ -685,12 +729,18 @@ def main():
             chk.cov["routes_sequences"] = len(rcs)
             chk.cov["routes_operations"] = nops
             chk.cov["routes_operations_completed_by_the_ring"] = nring
+            bursts = [(int(o["R"][0].get("ring", 0)), o) for p in okp for o in p["ops"] if o["name"] == "burst"]
+            chk.cov["burst_ops"] = len(bursts)
+            chk.cov["burst_requests_accepted_by_the_ring"] = sum(b for b, _ in bursts)
+            if not ring:
+                chk.cov["note_sqpoll"] = "io_uring_setup(SQPOLL) not available here: ring route and bursts ran on the pool; " \
+                                         "only the deterministic ring-full correspondence covers uv__iou_get_sqe"
             chk.sample({"routes_case": rcs[-1][:300], "impl": outs[-1][:600]})
             if ring and nring == 0:
                 chk.violation("the SQPOLL ring exists but no operation was routed through it",
                               {"kind": "harness"}, found_input=False)
             # ---- (iii) sanitizer flavour ----
-            sl = rcs[:(400 if thorough else 60)]
+            sl = [c for c in rcs if "burst" not in c][:(400 if thorough else 60)] + ["burst mixed 66 1 | burst open 65 1"]
             env = dict(os.environ, UV_THREADPOOL_SIZE="4", ASAN_OPTIONS="detect_leaks=1")
             oa, rca, erra = vf.run_lines([hroutes_a, trees], sl, shards=4, env=env)
             bad = rca != 0 or any(s in (erra or "") for s in ("AddressSanitizer", "LeakSanitizer", "runtime error"))
@@ -698,6 +748,42 @@ def main():
                 chk.violation("ASan/LSan/UBSan report while running file operations and uv_fs_req_cleanup twice in every result state",
                               {"kind": "sanitizer", "log": (erra or "")[-3000:], "cases": sl[:5]}, found_input=True)
             chk.cov["sanitizer_sequences"] = len(sl)
+
+    # ---- (vi) an application allocator whose free() clobbers errno ----
+    if rcs and not replay_case or (replay_case and replay_case[0].startswith("clobber")):
+        ccs = [replay_case[1]] if replay_case else [c for c in read_corpus("routes.txt") if "burst" not in c] + \
+            ["burst mixed 66 1"] + read_corpus("clobber.txt") + \
+            [c for c in rcs[len(read_corpus("routes.txt")) + len(read_corpus("routes_statx.txt")):] if "burst" not in c][:120]
+        env = dict(os.environ, UV_THREADPOOL_SIZE="4", C11_CLOBBER="1")
+        co, cex, cerr = run_robust([hroutes, trees], ccs, env=env, keep=lambda l: not l.startswith("env "))
+        if len(co) != len(ccs):
+            chk.violation("c11_routes (errno-clobbering allocator) produced %d lines for %d cases" % (len(co), len(ccs)),
+                          {"kind": "harness"}, found_input=False)
+        else:
+            nb = 0
+            for c, l in zip(ccs, co):
+                chk.count("clobber", c + "=>" + l)
+                p = l if l.startswith("crash") else parse_routes_line(l)
+                reason = routes_monitor_parsed(c, p)
+                if reason:
+                    nb += 1
+                    if nb <= 3:
+                        chk.violation("clobber: result differs when the allocator's free() clobbers errno: %s" % reason,
+                                      {"kind": "monitor", "obligation": "clobber: uv_replace_allocator with a free() that sets errno",
+                                       "case": c, "impl": l[:3000]}, found_input=True)
+            chk.corr("routes under an allocator whose free() sets errno = 9999 (monitor only)", len(ccs))
+
+    # ---- (v) room in the submission ring ----
+    scs = read_corpus("sqring.txt") + sqring_cases(chk.rng, 3000 if thorough else 300)
+    if replay_case:
+        scs = [replay_case[1]] if replay_case[0].startswith("sqring") and replay_case[1] else []
+    if scs:
+        so, _, serr = run_robust([hsq], scs, shards=4)
+        sm, _, _ = vf.run_lines([model, "sqring"], scs, shards=4)
+        vf.diff_cases(chk, "sqring: uv__iou_get_sqe room decision = Model/Fs.v sq_submit", scs, so, sm, sqring_monitor)
+        chk.cov["sqring_cases"] = len(scs)
+        chk.cov["sqring_submissions"] = sum(l.count("g") + l.count("f ") for l in so)
+        chk.cov["sqring_fallbacks"] = sum(l.count("f ") for l in so)
 
     # ---- (iv) pool sizes ----
     pcs = read_corpus("pool.txt") + pool_cases(chk.rng, 300 if thorough else 40)
@@ -730,6 +816,8 @@ def main():
              "routes: random operation sequences over a fixed tree (existing/missing/wrong-type/existing-target paths, "
              "descriptor slots), four routes on fresh trees; model compared on route taken, SQE fields and live uv__malloc "
              "blocks at four points; monitor compares results, outputs, callback counts, trees against the POSIX mirror. "
+             "bursts of 63..1000 requests before uv_run on every route; the same sequences under an allocator whose free() sets "
+             "errno; uv__iou_get_sqe on a fake 64-entry ring with scripted head/tail against sq_run. "
              "pool: one child process per (UV_THREADPOOL_SIZE value, operation): unset, \"0\", \"\", \"00\", \"+0\", text, "
              "negative, 1, 2, 4, 1024, 1025, beyond int/long and random strings; watchdog 3 s; worker threads counted in "
              "/proc/self/task and compared with pool_size; pool result compared with the sync result. "
